@@ -142,68 +142,70 @@ def run(R, env):
     if sc is None:
         R.ob("C07.R4", "sudo:exists", False, "no sudo entry point", fn="staking::contract::sudo")
     else:
-        for c, path in inline_walk(prog, sc, 2):
-            if c.body.key == sc.body.key or c.body.kind != "fn":
+        from engine.analysis import dispatch_table
+        dct, dtab = dispatch_table(prog, sc.body.key, "IBCLifecycleComplete")
+        for vname, e in sorted(dtab.items()):
+            if not e["handler"]:
                 continue
-            ops = [o for o in __import__("engine.analysis", fromlist=["storage_ops"]).storage_ops(c) if ns_of(prog, o["args"][0]) == "inflight"]
-            if not ops:
+            arm_ = {"calls": e["handler"], "handlers": [t_.get("rkey") for _, t_ in e["handler"]]}
+            if not arm_["handlers"][0] or prog.body(arm_["handlers"][0]) is None:
+                continue
+            c = handler_ctx(prog, dct, arm_)
+            deep = lambda w_: [o for o in storage_ops_deep(prog, w_, env.depth) if o["kind"] == "w"]
+            if not [o for o in storage_ops_deep(prog, c, env.depth) if ns_of(prog, o["args"][0]) == "inflight"]:
                 continue
             n_cb += 1
             ck = c.body.key
-            bound = " ".join(fmt(p)[:200] for p in (c.T.params or {}).values())
-            is_ack = "IBCAck" in bound
+            is_ack = vname == "IBCAck"
             name = "ack" if is_ack else "timeout"
             msgf = lambda t, f: t[0] == "field" and t[2] == f and t[1][0] == "variant"
             chan = lambda t: msgf(t, "channel")
             seq = lambda t: msgf(t, "sequence")
             succ = lambda t: msgf(t, "success")
+            cfg_chan = lambda y: loaded_field(prog, y, "config", ["protocol_chain_config", "ibc_channel_id"], CRATE)
 
-            def other_channel(t):
-                rel = cmp_rel(t, chan, lambda y: loaded_field(prog, y, "config", ["protocol_chain_config", "ibc_channel_id"], CRATE))
-                return rel
+            # world: the callback's channel differs from the configured one (every comparison of the
+            # two — here or in a helper — takes the value it has for different strings)
+            def differ(t):
+                rel = cmp_rel(t, chan, cfg_chan)
+                if rel is None:
+                    return None
+                return ("<" in rel) or (">" in rel)
 
-            # world: channel differs
-            def chan_pred(t):
-                return other_channel(t) is not None
-            rem = set()
-            n = 0
-            for bi, atom in c.atoms():
-                if atom[0] == "bool" and other_channel(atom[1]) is not None:
-                    n += 1
-                    rel = other_channel(atom[1])
-                    truth_when_equal = "=" in rel
-                    # keep only the edges of "channels differ"
-                    for tg in atom[2][truth_when_equal]:
-                        if tg not in atom[2][not truth_when_equal]:
-                            rem.add((bi, tg))
-            w = c.with_removed(rem).settle()
+            from engine.analysis import inline_walk as _iw
+            n = sum(1 for c_, p_ in _iw(prog, c, 2) for s_ in ([x for bi, atom in c_.atoms() if atom[0] == "bool" for x in subterms(atom[1])] + list(subterms(c_.T.return_term()))) if cmp_rel(s_, chan, cfg_chan) is not None)
+            w = c.assume((None, differ)).settle()
             R.worlds += 1
-            wr = [o for o in __import__("engine.analysis", fromlist=["storage_ops"]).storage_ops(w) if o["kind"] == "w"]
+            wr = deep(w)
             R.ob("C07.R4", name + ":other-channel-no-write", n >= 1 and not wr, "a callback for another channel can write %s (channel tests found: %d)" % ([(ns_of(prog, o["args"][0]), o["op"]) for o in wr], n), fn=ck)
             pk = lambda t: t[0] == "payload" and shared.unwrap_payload(t)[0] == "call" and shared.unwrap_payload(t)[1].endswith("Map::may_load") and ns_of(prog, shared.unwrap_payload(t)[2][0]) == "inflight" and seq(shared.unwrap_payload(t)[2][2])
             rem, n = world_edges(c, pk, False)
             w = c.with_removed(rem).settle()
             R.worlds += 1
-            wr = [o for o in __import__("engine.analysis", fromlist=["storage_ops"]).storage_ops(w) if o["kind"] == "w"]
+            wr = deep(w)
             R.ob("C07.R4", name + ":unknown-sequence-no-write", n >= 1 and not wr, "a callback for an unknown sequence can write %s" % [(ns_of(prog, o["args"][0]), o["op"]) for o in wr], fn=ck)
             loaded_pkt = lambda t: t[0] == "payload" and pk(t[1])
+            same_chan = lambda t: (None if differ(t) is None else (not differ(t)))
             worlds = [(True, "success"), (False, "failure")] if is_ack else [(None, "timeout")]
             for val, wn in worlds:
-                w = c
+                # the packet is known and the channel is ours
+                rem_k, _ = world_edges(c, pk, True)
+                w = c.with_removed(rem_k).assume((None, same_chan))
                 if val is not None:
-                    rem, n = bool_world_edges(c, succ, val)
-                    w = c.with_removed(rem).settle()
+                    rem, n = bool_world_edges(w, succ, val)
+                    w = w.with_removed(rem)
                     R.ob("C07.R4", "ack:tests-success-flag", n >= 1, "the ack callback never tests the success flag", fn=ck)
+                w = w.settle()
                 R.worlds += 1
-                wr = [o for o in __import__("engine.analysis", fromlist=["storage_ops"]).storage_ops(w) if o["kind"] == "w"]
+                wr = deep(w)
                 if wn == "success":
                     good = len(wr) == 1 and wr[0]["op"] == "remove" and ns_of(prog, wr[0]["args"][0]) == "inflight" and seq(wr[0]["args"][2])
                     R.ob("C07.R4", "ack:success-removes-packet", good, "on a success ack the writes are %s; expected only INFLIGHT_PACKETS.remove(sequence)" % [(ns_of(prog, o["args"][0]), o["op"], fmt(o["args"][2])[:40]) for o in wr], fn=ck)
                 else:
                     status = "AckFailure" if is_ack else "TimedOut"
-                    good = len(wr) == 1 and wr[0]["op"] == "save" and ns_of(prog, wr[0]["args"][0]) == "inflight" and seq(wr[0]["args"][2])
+                    good = len(wr) == 1 and wr[0]["wop"] == "save" and ns_of(prog, wr[0]["args"][0]) == "inflight" and seq(wr[0]["args"][2])
                     if good:
-                        ds = struct_deltas(wr[0]["args"][3])
+                        ds = shared.write_value_alternatives(prog, wr[0], "inflight") or []
                         good = len(ds) == 1 and loaded_pkt(ds[0][0]) and set(ds[0][1]) == {("status",)} and ds[0][1][("status",)][0] == "agg" and ds[0][1][("status",)][2] == status
                     R.ob("C07.R4", "%s:marks-packet-%s" % (name, status), good, "on %s the writes are %s; expected only save(sequence, loaded packet with status := %s)" % (wn, [(ns_of(prog, o["args"][0]), o["op"], fmt(o["args"][-1])[:120]) for o in wr], status), fn=ck)
         R.floor("C07.R4", "ack/timeout callbacks reached from sudo", n_cb, 2)
